@@ -69,17 +69,17 @@ CHECKS = {
  "C01": ("fault_enumeration",
          "Hypothesis scenario generation + exhaustive fault product against the real runtime in a forked worker; identity-based cause oracle",
          "Failing payloads of every flavour x ~57 failure kinds (Exception subclasses, BaseExceptions, all falsy and truthy return values, KeyboardInterrupt raised or as real SIGINT) x 6 registration modes x both runners are enumerated exhaustively without bystanders, and sampled with bystanders, several simultaneous failures, delays, accept delays and switch intervals; a further test runs the same runner instance twice. The blocking call must end within 20 s, must not return normally without a KeyboardInterrupt and must raise RuntimeError caused (through exception groups, by identity) only by injected failures.",
-         "Thread interleavings are sampled, not enumerated; bounded liveness (20 s) stands for 'never keeps running'; accept()/run() executes in the main thread of a forked worker per scenario.",
+         "Thread interleavings are sampled, not enumerated (a fifth of the scenarios run under harness-owned line-level delays inside the runner modules); bounded liveness (20 s) stands for 'never keeps running'; accept()/run() executes in the main thread of a forked worker per scenario.",
          "3/C01"),
  "C02": ("fault_enumeration",
          "Hypothesis termination scenarios in a forked worker; invariant over the timestamped per-payload event log vs the instant the call ended",
          "A finite core (every trigger x flavour/state/cleanup of one running coroutine payload x runner, 570 scenarios) is enumerated completely in both tiers; beyond it every termination trigger (failure per flavour and kind, raised KeyboardInterrupt, real SIGINT, shutdown(), stop()) at generated instants against generated sets of running coroutine payloads (sleeping, spinning, beating, just adopted, adopted from payloads, adopted during shutdown) with synchronous and shielded cleanup and blocked threads, compound triggers (shutdown followed by a failure inside the cleanup window) and payloads adopted by the failing payload in its last step; each started coroutine payload must log its framework's cancellation and cleanup-done before T_end and nothing after it.",
-         "Sampled interleavings and trigger instants; timestamps are monotonic_ns taken inside the payloads, T_end after the call returned; 20 s liveness bound.",
+         "Sampled interleavings and trigger instants (a fifth of the scenarios under line-level delays inside the runner modules); timestamps are monotonic_ns taken inside the payloads, T_end after the call returned; 20 s liveness bound.",
          "3/C02"),
  "C03": ("exploration",
          "Hypothesis submission histories (steady and shutdown-race phases) in a forked worker; exactly-once / argument / context / adopt-result oracle",
          "Generated numbers of payloads and services per flavour with generated arguments, submitted before start, at start, during the first polling cycles and later by concurrent outside threads and from payloads of every flavour; counted at quiescence plus five polling periods; a second phase races shutdown() against adopt storms while payloads with long (shielded) cleanup keep the runtime in its cleanup window; services that finish and are dropped while new ones are created, 25-70 payloads of one flavour, and line-level schedule perturbation (settrace delays) inside the runner modules for concurrent submitters.",
-         "Sampled interleavings; 'none is lost' judged within 20 s; adopt calls after shutdown began are judged only inside observed cleanup intervals.",
+         "Sampled interleavings, partly under line-level delays inside the runner and service modules; 'none is lost' judged within 20 s; adopt calls after shutdown began are judged only inside observed cleanup intervals.",
          "3/C03"),
  "C10": ("exploration",
          "Hypothesis execute/adopt sequences in a forked worker; identity of result/exception evaluated in the worker, liveness of bystanders afterwards",
@@ -99,7 +99,7 @@ CHECKS = {
  "C13": ("fault_enumeration",
          "Hypothesis-generated configurations and fault kinds against real `python -m cobald.daemon` child processes with instrumented fixtures",
          "YAML and Python configurations with 0-4 services of all flavours, scenario kinds valid+SIGINT, valid+failing service, and twelve kinds of invalid configuration; oracle from exit status, log file and an event file (constructed inside the runtime's running loop, started exactly once, beating until the signal, cancelled, exit 0; non-zero exit plus an error on the log otherwise).",
-         "Tens to hundreds of process runs per check, not thousands; signals only after the daemon is observably up; 20 s bounds.",
+         "Tens to hundreds of process runs per check, not thousands; a third of the valid runs perturb the daemon's own schedule (line-level delays in service.py installed through a harness sitecustomize); signals only after the daemon is observably up; 20 s bounds.",
          "3/C13"),
 }
 
